@@ -203,6 +203,41 @@ Fixpoint c14_from (r d : Z) (before : obs) (tr : list event) : bool :=
 
 Definition C14_ok (r d : Z) (o0 : obs) (tr : list event) : bool := c14_from r d o0 tr.
 
+(* C14, additional clause (added after seeded change C14-a showed that a stale
+   recovery timer cutting a NEW recovery window short was only visible as a
+   divergence): the recovery window of an endpoint is ended only by its own,
+   latest recovery timer (not by a stale one, not by the clock alone), and not
+   before that timer is due.  Guard: recovery timeout >= 0, as above. *)
+Definition c14t_event (r : Z) (before : obs) (ev : event) : bool :=
+  let l := o_eps (ev_obs ev) in
+  match ev_op ev with
+  | OpBegin _ | OpEnd _ | OpAdvance _ =>
+      (r <? 0) ||
+      forallb (fun b => if o_recovering b then
+                          match find_oep (oe_id b) l with
+                          | Some a => if o_recovering a then true
+                                      else match ev_op ev with
+                                           | OpEnd k => (oe_tmr b =? Z.of_nat k) &&
+                                                        match nth_pair (o_tmrs before) (oe_tmr b) with
+                                                        | Some t => fst t <=? o_now before
+                                                        | None => false
+                                                        end
+                                           | _ => false
+                                           end
+                          | None => true
+                          end
+                        else true) (o_eps before)
+  | _ => true
+  end.
+
+Fixpoint c14t_from (r : Z) (before : obs) (tr : list event) : bool :=
+  match tr with
+  | [] => true
+  | ev :: rest => c14t_event r before ev && c14t_from r (ev_obs ev) rest
+  end.
+
+Definition C14T_ok (r : Z) (o0 : obs) (tr : list event) : bool := c14t_from r o0 tr.
+
 (* ------------------ correspondence: model vs recorded trace ------------- *)
 Definition out_eqb (a b : out) : bool :=
   match a, b with
